@@ -1,5 +1,5 @@
 -------------------------- MODULE RouterTrace --------------------------
-(* Trace judge for C01.  IOEnv.ROUTER_UNIVERSE names the batch's universe [ts, ps, conv, bad]
+(* Trace judge for C01.  IOEnv.ROUTER_UNIVERSE names the batch's universe [ts, ps, conv, bad, mconv]
    (template segments of all traces, trusted converter table); IOEnv.TRACE_FILE the traces.
    A trace is [ev |-> <<event>>]; one event per public call of the router under test, logged at
    its return, next to what a SHADOW router -- a real router that is fed only the accepted
@@ -16,6 +16,8 @@
       P:route           wrong hit/miss, wrong resource or wrong template
       P:leak            a parameter that is not a field of the matched template
       P:params          field values differ
+      P:multiseg-not-last  a template that puts something after, or next to, a field whose converter consumes
+                        multiple segments (path, or user-defined with CONSUME_MULTIPLE_SEGMENTS) was accepted
       D:accept          accept/reject differs from the modelled acceptance rules (not demanded
                         by the property; reported as a note)                                  *)
 EXTENDS RouterUniverse, Router
@@ -59,6 +61,7 @@ JudgeFind ==
 JudgeAdd(a) ==
     IF Ev.out # Ev.sout THEN "P:reject-noop"
     ELSE IF Ev.out = "exc" THEN "P:internal-error"
+    ELSE IF Ev.out = "ok" /\ a.out \in {"pathNotLast", "pathInMulti"} THEN "P:multiseg-not-last"
     ELSE IF (Ev.out = "ok") # (a.out = "ok") THEN "D:accept"
     ELSE "ok"
 
